@@ -53,6 +53,32 @@ def run(ctx: Any, prog: Program) -> None:
         ctx.check('C19.H4', True, _m, _m.tree, f'{len(_hits)} shared class-level containers in {_m.relpath}', func='<module>', text=f'{_m.relpath}: class-level containers examined')
 
     call_forms = {'_clean_path': frozenset({FOLDED, SLASHED, 'CLEAN'})}
+    # module-level helpers that normalise a name (`def _archive_name(name): return name.replace(..).casefold()`): the form of what they return,
+    # and the characters they trim off (strip-like calls change the *content*, not just the form)
+    helper_trims: Dict[str, List[ast.Call]] = {}
+
+    def trims_in(e: ast.AST) -> List[ast.Call]:
+        out_ = []
+        for c_ in ast.walk(e):
+            if isinstance(c_, ast.Call) and isinstance(c_.func, ast.Attribute) and c_.func.attr in ('lstrip', 'strip', 'removeprefix') and c_.args and isinstance(c_.args[0], ast.Constant) and isinstance(c_.args[0].value, str) \
+                    and set(c_.args[0].value) - set('/\\'):
+                out_.append(c_)
+            if isinstance(c_, ast.Call) and isinstance(c_.func, ast.Name) and c_.func.id in helper_trims:
+                out_ += helper_trims[c_.func.id]
+        return out_
+    for hq, hfl in fs.all_funcs().items():
+        if '.' in hq or len(hfl) != 1 or len(hfl[0].args.args) != 1:
+            continue
+        hrets = [r for r in walk_no_nested(hfl[0]) if isinstance(r, ast.Return) and r.value is not None]
+        if not hrets:
+            continue
+        hforms = [FormEnv(hfl[0], call_forms=call_forms).form(r.value) for r in hrets]
+        hf = set(hforms[0])
+        for x in hforms[1:]:
+            hf &= x
+        if hf and hq not in call_forms:
+            call_forms[hq] = frozenset(hf)
+        helper_trims[hq] = [c_ for r in hrets for c_ in trims_in(r.value)] + [c_ for a in walk_no_nested(hfl[0]) if isinstance(a, ast.Assign) for c_ in trims_in(a.value)]
     # _clean_path itself: normpath + slashes + casefold
     cp = fs.func('VirtualFileSystem._clean_path')
     rets = [r for r in walk_no_nested(cp) if isinstance(r, ast.Return) and r.value is not None]
@@ -74,6 +100,17 @@ def run(ctx: Any, prog: Program) -> None:
                     key_expr = n.value.key
         if key_form is None:
             raise AnalysisError(f'{cls}.__init__: index {index} is not built by a dict comprehension')
+        # every *file* of the container is indexed: the only members the comprehension may leave out are directory entries
+        for n in ast.walk(init):
+            if isinstance(n, (ast.Assign, ast.AnnAssign)) and isinstance(n.value, ast.DictComp) and any(dotted(t) == f'self.{index}' for t in (n.targets if isinstance(n, ast.Assign) else [n.target])):
+                for g in n.value.generators:
+                    for cond in g.ifs:
+                        conds = cond.values if isinstance(cond, ast.BoolOp) and isinstance(cond.op, ast.And) else [cond]
+                        for c1 in conds:
+                            is_dir_test = isinstance(c1, ast.UnaryOp) and isinstance(c1.op, ast.Not) and isinstance(c1.operand, ast.Call) and isinstance(c1.operand.func, ast.Attribute) \
+                                and (c1.operand.func.attr == 'is_dir' or (c1.operand.func.attr == 'endswith' and c1.operand.args and isinstance(c1.operand.args[0], ast.Constant) and c1.operand.args[0].value in ('/', ('/', '\\'))))
+                            ctx.check('C19.H1', is_dir_test, fs, c1, f'{cls}: the index leaves out members for which `{U(c1)[:60]}` is false - that is not a test for a directory entry, so real files (an empty file has '
+                                      'file_size 0) are missing from this backend while the other backends have them', func=f'{cls}.__init__', text=f'{cls} index filter `{U(c1)[:40]}`')
         ctx.check('C19.H1', FOLDED in key_form and SLASHED in key_form, fs, key_expr, f'{cls}: index keys `{U(key_expr)}` must be casefolded with forward slashes (form {sorted(key_form)})',
                   func=f'{cls}.__init__', text=f'{cls} index key form')
         clean = 'CLEAN' in key_form
@@ -119,6 +156,22 @@ def run(ctx: Any, prog: Program) -> None:
                 else:
                     ctx.shape('C19.H1', False, fs, fn, f'{cls}.{mname} does not consult self.{index}', func=f'{cls}.{mname}', text=f'{cls}.{mname} lookup key form')
             for node, kexpr, senv in sites:
+                # characters trimmed off the name asked for, which the index keys keep (a leading '.' is part of `.gitignore`)
+                tr_ = trims_in(kexpr)
+                seen_n: Set[str] = set()
+                todo_n = [x.id for x in ast.walk(kexpr) if isinstance(x, ast.Name)]
+                while todo_n:
+                    nm_ = todo_n.pop()
+                    if nm_ in seen_n:
+                        continue
+                    seen_n.add(nm_)
+                    for d_ in senv.defs.get(nm_, []):
+                        tr_ = tr_ + trims_in(d_)
+                        todo_n += [x.id for x in ast.walk(d_) if isinstance(x, ast.Name)]
+                idx_tr = {U(c_.args[0]) for c_ in trims_in(key_expr)} if key_expr is not None else set()
+                extra_tr = [c_ for c_ in tr_ if U(c_.args[0]) not in idx_tr]
+                ctx.check('C19.H1', not extra_tr, fs, node, f'{cls}.{mname} strips `{U(extra_tr[0].args[0]) if extra_tr else ""}` off the name before looking it up (`{U(extra_tr[0])[:50] if extra_tr else ""}`), the index keys keep those characters: '
+                          'a name that begins with one of them (`.gitignore`) is listed but not found, unlike in the other backends', func=f'{cls}.{mname}', text=f'{cls}.{mname} lookup key not trimmed')
                 form = senv.form(kexpr)
                 ok = FOLDED in form and SLASHED in form and (('CLEAN' in form) == clean)
                 ctx.check('C19.H1', ok, fs, node, f'{cls}.{mname} looks up `{U(kexpr)}` (form {sorted(form)}) but the index keys have form {sorted(key_form)}: '
@@ -406,6 +459,8 @@ def run(ctx: Any, prog: Program) -> None:
 
 
 MUTANTS = [
+    {'id': 'zip_lookup_strips_leading_dots', 'file': 'filesys.py', 'find': "    def _get_file(self, name: str) -> File[Self]:\n        name = name.replace('\\\\', '/')\n        try:\n            info = self._name_to_info[name.casefold()]", 'replace': "    def _get_file(self, name: str) -> File[Self]:\n        name = name.replace('\\\\', '/').lstrip('./')\n        try:\n            info = self._name_to_info[name.casefold()]", 'expect': 'C19.H1'},
+    {'id': 'zip_index_skips_empty_files', 'file': 'filesys.py', 'find': "            if not info.filename.endswith('/')\n", 'replace': "            if info.file_size and not info.filename.endswith('/')\n", 'expect': 'C19.H1'},
     {'id': 'add_sys_priority_position_one', 'file': 'filesys.py', 'find': "        if priority:\n            self.systems.insert(0, (sys, prefix))\n        else:\n            self.systems.append((sys, prefix))", 'replace': "        self.systems.insert(1 if priority else len(self.systems), (sys, prefix))", 'expect': 'C19.H4'},
     {'id': 'ok_add_sys_single_insert', 'file': 'filesys.py', 'find': "        if priority:\n            self.systems.insert(0, (sys, prefix))\n        else:\n            self.systems.append((sys, prefix))", 'replace': "        position = 0 if priority else len(self.systems)\n        self.systems.insert(position, (sys, prefix))", 'expect': None},
     {'id': 'add_sys_skips_present_member', 'file': 'filesys.py', 'find': "        if priority:\n            self.systems.insert(0, (sys, prefix))", 'replace': "        if (sys, prefix) in self.systems:\n            return\n        if priority:\n            self.systems.insert(0, (sys, prefix))", 'expect': 'C19.H4'},
